@@ -17,6 +17,9 @@
 //   - bufWrites: every call in image.go that hands the `buf` field of an image object to a writer
 //     (fmt.Fprint*(x.buf, …), sixel.NewEncoder(x.buf), x.buf.Write*): (function, callee and the
 //     string literal written, if any);
+//   - protocolSteps: every assignment to vx.graphicsProtocol in New (vaxis.go) and applyQuirks (quirks.go) in source
+//     order with its guard stack (enclosing for / select arm / type-switch arm / switch arm / if / else), and the
+//     position of the call `vx.applyQuirks()` inside New: (function, guards, assigned constant or "call applyQuirks");
 //   - imageEscLiterals: every string literal of the package that opens a kitty graphics APC
 //     (ESC _ G) or a DCS (ESC P): (file:function or file:const NAME, literal).
 package main
@@ -266,6 +269,115 @@ func genWidth(c *ex.Ctx) {
 	c.Write("WidthSel.lean", sb.String())
 }
 
+type pstep struct {
+	fn     string
+	guards []string
+	what   string
+}
+
+// walkProto lists the assignments to vx.graphicsProtocol (and the call of applyQuirks) below stmts with their guard stacks.
+func walkProto(c *ex.Ctx, fn string, stmts []ast.Stmt, stack []string, out *[]pstep) {
+	push := func(g string) []string { return append(append([]string{}, stack...), g) }
+	for _, st := range stmts {
+		switch s := st.(type) {
+		case *ast.AssignStmt:
+			for i, l := range s.Lhs {
+				if c.Src(l) == "vx.graphicsProtocol" {
+					v := "?"
+					if i < len(s.Rhs) && s.Tok == token.ASSIGN {
+						if id, ok := s.Rhs[i].(*ast.Ident); ok {
+							v = id.Name
+						} else {
+							v = "?" + one(c.Src(s.Rhs[i]))
+						}
+					}
+					*out = append(*out, pstep{fn, stack, v})
+				}
+			}
+		case *ast.IncDecStmt:
+			if c.Src(s.X) == "vx.graphicsProtocol" {
+				*out = append(*out, pstep{fn, stack, "?" + one(c.Src(s))})
+			}
+		case *ast.ExprStmt:
+			if one(c.Src(s.X)) == "vx.applyQuirks()" {
+				*out = append(*out, pstep{fn, stack, "call applyQuirks"})
+			}
+		case *ast.BlockStmt:
+			walkProto(c, fn, s.List, stack, out)
+		case *ast.LabeledStmt:
+			walkProto(c, fn, []ast.Stmt{s.Stmt}, stack, out)
+		case *ast.ForStmt:
+			g := "for"
+			if s.Cond != nil {
+				g = "for " + one(c.Src(s.Cond))
+			}
+			walkProto(c, fn, s.Body.List, push(g), out)
+		case *ast.RangeStmt:
+			walkProto(c, fn, s.Body.List, push("range "+one(c.Src(s.X))), out)
+		case *ast.IfStmt:
+			cond := one(c.Src(s.Cond))
+			if s.Init != nil {
+				cond = one(c.Src(s.Init)) + "; " + cond
+			}
+			walkProto(c, fn, s.Body.List, push("if "+cond), out)
+			if s.Else != nil {
+				walkProto(c, fn, []ast.Stmt{s.Else}, push("else "+cond), out)
+			}
+		case *ast.SwitchStmt:
+			tag := ""
+			if s.Tag != nil {
+				tag = one(c.Src(s.Tag))
+			}
+			for _, cl := range s.Body.List {
+				cc := cl.(*ast.CaseClause)
+				lab := "default"
+				if cc.List != nil {
+					var ls []string
+					for _, e := range cc.List {
+						ls = append(ls, one(c.Src(e)))
+					}
+					lab = "case " + strings.Join(ls, ",")
+				}
+				walkProto(c, fn, cc.Body, push("switch "+tag+" "+lab), out)
+			}
+		case *ast.TypeSwitchStmt:
+			for _, cl := range s.Body.List {
+				cc := cl.(*ast.CaseClause)
+				lab := "default"
+				if cc.List != nil {
+					var ls []string
+					for _, e := range cc.List {
+						ls = append(ls, one(c.Src(e)))
+					}
+					lab = strings.Join(ls, ",")
+				}
+				walkProto(c, fn, cc.Body, push("type "+lab), out)
+			}
+		case *ast.SelectStmt:
+			for _, cl := range s.Body.List {
+				cc := cl.(*ast.CommClause)
+				lab := "default"
+				if cc.Comm != nil {
+					lab = one(c.Src(cc.Comm))
+				}
+				walkProto(c, fn, cc.Body, push("select "+lab), out)
+			}
+		case *ast.GoStmt, *ast.DeferStmt:
+			// a function literal that assigns the protocol would be a new shape: report it
+			ast.Inspect(st, func(x ast.Node) bool {
+				if as, ok := x.(*ast.AssignStmt); ok {
+					for _, l := range as.Lhs {
+						if c.Src(l) == "vx.graphicsProtocol" {
+							*out = append(*out, pstep{fn, push("?closure"), "?closure"})
+						}
+					}
+				}
+				return true
+			})
+		}
+	}
+}
+
 func genImage(c *ex.Ctx) {
 	files, _ := filepath.Glob(filepath.Join(c.Repo, "*.go"))
 	sort.Strings(files)
@@ -359,6 +471,21 @@ func genImage(c *ex.Ctx) {
 			})
 		}
 	}
+	var steps []pstep
+	if vf := c.Parse("vaxis.go"); vf != nil {
+		if fn := ex.FindFunc(vf, "", "New"); fn != nil {
+			walkProto(c, "New", fn.Body.List, nil, &steps)
+		} else {
+			c.Fail("vaxis.go: New not found")
+		}
+	}
+	if qf := c.Parse("quirks.go"); qf != nil {
+		if fn := ex.FindFunc(qf, "Vaxis", "applyQuirks"); fn != nil {
+			walkProto(c, "applyQuirks", fn.Body.List, nil, &steps)
+		} else {
+			c.Fail("quirks.go: applyQuirks not found")
+		}
+	}
 	if len(literals) == 0 && len(escLits) == 0 {
 		c.Fail("image constructors: nothing found (image.go moved?)")
 		return
@@ -368,6 +495,13 @@ func genImage(c *ex.Ctx) {
 	sb.WriteString(pairList("literals", "Every composite literal, `new(T)` or `var x T` of type KittyImage / Sixel in the package: (file:function, type).", literals))
 	sb.WriteString(pairList("ctorCalls", "Every call of NewKittyGraphic / NewSixel inside the package: (file:function, callee).", calls))
 	sb.WriteString(pairList("bufWrites", "image.go: every call that hands the `buf` field of an image object to a writer: (function, callee and the literal written).", bufWrites))
+	{
+		var q []string
+		for _, st := range steps {
+			q = append(q, fmt.Sprintf("(%s, %s, %s)", ex.LeanStr(st.fn), strList(st.guards), ex.LeanStr(st.what)))
+		}
+		fmt.Fprintf(&sb, "/-- Every assignment to vx.graphicsProtocol in New and applyQuirks, in source order, with its guard stack, and the call of applyQuirks inside New: (function, guards, constant assigned or \"call applyQuirks\"). -/\ndef protocolSteps : List (String × List String × String) := [\n  %s\n]\n\n", strings.Join(q, ",\n  "))
+	}
 	sb.WriteString(pairList("imageEscLiterals", "Every string literal of the package that opens a kitty graphics APC (ESC _ G) or a DCS (ESC P): (file:function or file:const NAME, literal).", escLits))
 	sb.WriteString("end VaxisModel.Gen.ImageCtors\n")
 	c.Write("ImageCtors.lean", sb.String())
